@@ -16,9 +16,10 @@ RULE = (
     "object is compared field by field with the original (observable set, per point x,Q2,y,nf, order keys and their order, "
     "values and errors with array_equal, grid/log/degree/pids/projectilePID, both cards) and through predictions for a random "
     "PDF (bit-identical). Distinct = (chain, has XS, has empty, has None, PTO, TMC); non-trivial = at least one non-zero tensor went through the chain."
+    " One case in four hands the runner cards carrying numpy objects (interpolation_xgrid as array, kinematics as numpy scalars): the cards read back must equal the given ones value by value. Every case also writes a tar archive with runcards=False, which must load again with the same operators and predictions and no cards."
     " After the chain a second output of the same shape (other numbers and card) is written over the same tar / YAML path (file-based API) and must be what is read back."
 )
-ASSUMPTIONS = ["cards are made of plain YAML-representable python types (the card domain the formats document)"]
+ASSUMPTIONS = ["cards are made of plain YAML-representable python types or numpy arrays / scalars (what the runner accepts; the repository's own tests hand the grid over as an array)"]
 CHAINS = ["ttt", "yyy", "tyt", "yty"]
 
 
@@ -28,7 +29,7 @@ def budget(tier):
 
 def floor(tier):
     return dict(min_conclusive=30 if tier == "quick" else 500, min_nontrivial=16 if tier == "quick" else 60,
-                classes=CHAINS + ["xs", "empty", "none", "overwrite"], min_compared=500)  # fmt: skip
+                classes=CHAINS + ["xs", "empty", "none", "overwrite", "numpy-card", "no-runcards"], min_compared=500)  # fmt: skip
 
 
 def cases(tier, rng):
@@ -48,6 +49,7 @@ def cases(tier, rng):
         for p in pts:
             p["x"] = float(max(p["x"], min(0.4, g["xgrid"][1] * 2.0)))
             p["y"] = float(rng.uniform(0.1, 0.9))
+        flags["numpy"] = bool((i // 4) % 4 == 1)
         out.append(dict(id=f"c15-{i}", names=names, points=pts, flags=flags, chain=CHAINS[i % 4], grid=g,
                         pdf=pdfs.SmoothPDF.random(rng, q2slope=float(rng.uniform(-0.1, 0.1))), **cfg))  # fmt: skip
     return out
@@ -57,7 +59,18 @@ def listify(v):
     return v.tolist() if isinstance(v, np.ndarray) else (list(v) if isinstance(v, (list, tuple)) else v)
 
 
-def compare(orig, new, stage):
+def plain(c):
+    """the card value by value, numpy arrays and scalars as the lists / numbers they stand for"""
+    if isinstance(c, dict):
+        return {k: plain(v) for k, v in c.items()}
+    if isinstance(c, (list, tuple)):
+        return [plain(v) for v in c]
+    if isinstance(c, (np.ndarray, np.generic)):
+        return c.tolist()
+    return c
+
+
+def compare(orig, new, stage, cards_expected=True):
     """Yield human readable differences between two Output objects."""
     ko, kn = list(orig.keys()), list(new.keys())
     if sorted(map(str, ko)) != sorted(map(str, kn)):
@@ -91,9 +104,14 @@ def compare(orig, new, stage):
         else:
             if listify(a) != listify(b):
                 yield "meta", f"{stage}: field {k}: {listify(a)!r} became {listify(b)!r}"
-    if orig.theory != new.theory:
-        yield "theory", f"{stage}: theory card differs: " + str({k: (orig.theory.get(k), (new.theory or {}).get(k)) for k in orig.theory if (new.theory or {}).get(k) != orig.theory.get(k)})[:300]
-    if orig.observables != new.observables:
+    if not cards_expected:
+        if new.theory is not None or new.observables is not None:
+            yield "cards", f"{stage}: an archive written without run cards came back with cards"
+        return
+    ot, ob_ = plain(orig.theory), plain(orig.observables)
+    if ot != plain(new.theory):
+        yield "theory", f"{stage}: theory card differs: " + str({k: (ot.get(k), (new.theory or {}).get(k)) for k in ot if (new.theory or {}).get(k) != ot.get(k)})[:300]
+    if ob_ != plain(new.observables):
         yield "observables", f"{stage}: observables card differs"
 
 
@@ -111,6 +129,13 @@ def run_case(case):
     if flags["empty"]:
         obsd["FL_bottom" if "FL_bottom" not in obsd else "F2_top"] = []
     ob = cards.observables(obsd, xgrid=g["xgrid"], deg=g["deg"], is_log=g["is_log"], **case["obs"])
+    if flags.get("numpy"):
+        # the same cards with numpy objects in them (a grid built with numpy, kinematics taken from an array)
+        ob["interpolation_xgrid"] = np.array(ob["interpolation_xgrid"])
+        for n in obsd:
+            ob["observables"][n] = [{k: np.float64(v) for k, v in p.items()} for p in ob["observables"][n]]
+        th["mc"] = np.float64(th["mc"])
+        th["PTODIS"] = np.int64(th["PTODIS"])
     orig = yad.run_yadism(th, ob)
     if flags["none"]:
         orig["F3_top" if "F3_top" not in orig else "F2_toplight"] = None
@@ -118,6 +143,8 @@ def run_case(case):
     pred0 = orig.apply_pdf_alphas_alphaqed_xir_xif(pdf, lambda q: 0.2, lambda q: 0.0078, 1.3, 0.8)
     viol, classes = [], {case["chain"]}
     classes.update(k for k in ("xs", "empty", "none") if flags[k])
+    if flags.get("numpy"):
+        classes.add("numpy-card")
     compared = 0
     tmp = tempfile.mkdtemp(prefix="yadmon-c15-", dir=os.environ.get("VERIF_TMP"))
     try:
@@ -142,6 +169,22 @@ def run_case(case):
             if {k: v for k, v in pred.items()} != {k: v for k, v in pred0.items()}:
                 viol.append(dict(sig=f"roundtrip-prediction|{'tar' if fmt=='t' else 'yaml'}", what=f"{stage}: predictions for a test PDF differ from the original output's"))
             compared += sum(len(v) for v in pred0.values())
+        # an archive written without the run cards (dump_tar's runcards=False) is still an archive the library must read back
+        if not viol:
+            path = os.path.join(tmp, "nocards.tar")
+            try:
+                orig.dump_tar(path, runcards=False)
+                back = Output.load_tar(path)
+            except Exception as e:
+                viol.append(dict(sig=f"roundtrip-raises|tar-no-runcards|{run.exc_sig(e)}", what=f"dump_tar(runcards=False) followed by load_tar raised {type(e).__name__}: {e}"))
+            else:
+                for kind_, msg in compare(orig, back, "after tar without run cards", cards_expected=False):
+                    viol.append(dict(sig=f"roundtrip-{kind_}|tar-no-runcards", what=msg))
+                pred = back.apply_pdf_alphas_alphaqed_xir_xif(pdf, lambda q: 0.2, lambda q: 0.0078, 1.3, 0.8)
+                if dict(pred.items()) != dict(pred0.items()):
+                    viol.append(dict(sig="roundtrip-prediction|tar-no-runcards", what="predictions of the output read back from an archive without run cards differ from the original's"))
+                compared += sum(len(v) for v in pred0.values()) + 6
+                classes.add("no-runcards")
         # history: a loader must read the file it is given, whatever was dumped to or loaded from the same path before. A sibling output
         # (same shape, different numbers and card) is written over the last path used and read back (tar and YAML files alike).
         if not viol:
